@@ -76,6 +76,10 @@ type Server struct {
 	watches    map[int]*watcher
 	nextWatch  int
 	listCounts map[resKey]int
+
+	// SubresourcesFirst: discovery lists "things/status" before "things" (the order of a
+	// group-version's resource list is not specified). Set before the first request.
+	SubresourcesFirst bool
 }
 
 const (
